@@ -186,7 +186,7 @@ def mate_coords(frag):  # noqa: F811  (final definition)
         r2s = a - L
         r2e = r2s + rl2
     d = frag.get('defect')
-    if d in ('single', 'orphan_r1', 'r2unmapped'):
+    if d in ('single', 'orphan_r1', 'r2unmapped', 'placed_unmapped'):
         r2s = r2e = None
     if d in ('orphan_r2', 'r1unmapped'):
         r1s = r1e = None
@@ -239,10 +239,10 @@ def fragment_records(header, frag, encoded=True, lib='LIB'):
     clip = frag.get('clip', 0)
     fr1s, fr1e, fr2s, fr2e = full_coords(frag)
     qname = read_name(frag, encoded, lib)
-    paired = d != 'single'
+    paired = d not in ('single', 'placed_unmapped')
     r1_present = d not in ('orphan_r2',)
-    r2_present = d not in ('single', 'orphan_r1')
-    r1_mapped = d not in ('r1unmapped', 'unplaced')
+    r2_present = d not in ('single', 'orphan_r1', 'placed_unmapped')
+    r1_mapped = d not in ('r1unmapped', 'unplaced', 'placed_unmapped')
     r2_mapped = d not in ('r2unmapped', 'unplaced')
     ctg = frag['ctg']
     recs = []
@@ -322,7 +322,7 @@ def fragment_records(header, frag, encoded=True, lib='LIB'):
     ln2 = fr2e - fr2s
     seq2 = _seq(frag['n'], 2, ln2)
     # an unmapped mate is placed at its mate's position
-    r1_start = fr1s if r1_mapped else fr2s
+    r1_start = fr1s if (r1_mapped or d == 'placed_unmapped') else fr2s
     r2_start = fr2s if r2_mapped else fr1s
     if r1_present:
         recs.append(mk(True, r1_start, fr1e, frag['rev'], r1_mapped, r2_mapped if r2_present or d == 'orphan_r1' else True,
@@ -360,7 +360,7 @@ def write_input_bam(path, contigs, frags, encoded=True, lib='LIB', extra_header=
 def invalid_for(frag, method):
     """is this fragment *invalid* (rejected, removed by --no_rejects) for the method - generator's label"""
     d = frag.get('defect')
-    if d in ('r1unmapped', 'orphan_r2', 'unplaced', 'qcfail'):
+    if d in ('r1unmapped', 'orphan_r2', 'unplaced', 'qcfail', 'placed_unmapped'):
         return True
     if method == 'nla' and d == 'nomotif':
         return True
